@@ -75,6 +75,10 @@ def catalogue():
                 cat.append((t2, 'Segment', list(p0) + list(q), lambda c: Segment(Point(*c[:3]), Point(*c[3:])), list(p0) + list(q)))
                 cat.append((t2, 'Plane', list(p0) + [F(c) for c in d], lambda c: Plane(Point(*c[:3]), Vector(*c[3:])),
                             list(dd) + [X.dot(dd, p0)] + [-c for c in dd] + [-X.dot(dd, p0)]))
+                # the same plane through the general-form constructor a x + b y + c z = d (for axis frames the leading
+                # coefficients are exact zeros, and a perturbed zero is a coefficient of size eps/1000)
+                cat.append((t2, 'Plane', [F(c) for c in d] + [X.dot(d, p0)], lambda c: Plane(*c),
+                            list(dd) + [X.dot(dd, p0)] + [-c for c in dd] + [-X.dot(dd, p0)]))
         p0 = P0
         cat.append((fname, 'Vector', [F(c) for c in u], lambda c: Vector(*c), [F(c) for c in u]))
         pts_sq = [p0, X.add(p0, u), X.add(X.add(p0, u), v), X.add(p0, v)]
@@ -133,6 +137,8 @@ def def_points(o):
 
 
 def perturb_indices(kind, n, full):
+    if kind == 'Plane' and n == 4:
+        return [0, 1, 2, 3]         # general form: every coefficient, including exact zeros
     if kind in ('Line', 'HalfLine', 'Segment', 'Plane') and not full:
         return [0, 2, 3, 4]
     if kind == 'ConvexPolyhedron':
@@ -249,7 +255,9 @@ def make_persistent():
     out = {}
     simple = []
     for fname, kind, coords, mk, admitted in get_cat():
-        if admitted and kind in ('Point', 'Line', 'Plane', 'Segment', 'HalfLine') and fname in ('axis', 'pyth3', 'pyth3/odd', 'pyth3/odd/d1', 'axis/d2', 'pyth7/d0', 'axis/d0', 'pyth3/d0'):
+        # (general-form planes are not kept across configuration changes: a coefficient that was NOT negligible when the plane
+        # was built legitimately puts its support point ~1/coefficient away, where the two planes really are far apart)
+        if admitted and not (kind == 'Plane' and len(coords) == 4) and kind in ('Point', 'Line', 'Plane', 'Segment', 'HalfLine') and fname in ('axis', 'pyth3', 'pyth3/odd', 'pyth3/odd/d1', 'axis/d2', 'pyth7/d0', 'axis/d0', 'pyth3/d0'):
             simple.append((fname, kind, [float(c) for c in coords], mk, 1))
     # simplicial bodies stay constructible under every tolerance when one vertex is perturbed
     for fname in ('axis', 'pyth3'):
